@@ -11,6 +11,7 @@ pub struct Scenario {
 pub fn gen_scenario(r: &mut Rng, big: bool) -> Scenario {
     let nblock = if big { *r.pick(&[25usize, 40, 63]) } else { *r.pick(&[0usize, 1, 2, 3, 5, 8, 22]) };
     let mut args = vec!["-t".to_string(), nblock.to_string()];
+    let mut wo_stack: Option<String> = None;
     // names: any bytes incl. empty, whitespace, non-ASCII UTF-8
     const NAMES: [&str; 8] = ["776f726b6572", "", "c3a9c3a8", "20782020", "e697a5e69cac", "61", "6d61696e2d6c6f6f70", "09"];
     // names the kernel reports that are not valid UTF-8: a lone continuation / lead byte, a multi-byte character cut in
@@ -105,8 +106,23 @@ pub fn gen_scenario(r: &mut Rng, big: bool) -> Scenario {
             let bytes: Vec<u8> = (0..16384u32).map(|i| (i * 11 + 5) as u8).collect();
             std::fs::write(&path, bytes).unwrap();
         }
+        let protmod_index = args.iter().filter(|a| *a == "-M").count();
         args.push("-M".into());
         args.push(format!("{}|-|0:1:w,0x1000:1:wx,0x2000:1:x,0x3000:1:rwx", crate::rng::hex(path.as_bytes())));
+        let _ = protmod_index;
+    }
+    // a mapping that is writable but not readable, or readable but not writable, as a whole (its own file), and a thread
+    // that waits with its stack pointer in it: such a mapping can be a stack (read through /proc/<pid>/mem)
+    if nblock >= 1 && Rng::new(r.0 ^ 0x9b05_688c).chance(1, 4) {
+        let path = format!("{}/womod.bin", crate::live::run_dir("shared"));
+        if !std::path::Path::new(&path).exists() {
+            let bytes: Vec<u8> = (0..8192u32).map(|i| (i * 3 + 7) as u8).collect();
+            std::fs::write(&path, bytes).unwrap();
+        }
+        let index = args.iter().filter(|a| *a == "-M").count();
+        args.push("-M".into());
+        args.push(format!("{}|-|0:2:{}", crate::rng::hex(path.as_bytes()), *Rng::new(r.0 ^ 0x1f83_d9ab).pick(&["w", "w", "r"])));
+        wo_stack = Some(format!("{}:M{}+{}", nblock, index, *Rng::new(r.0 ^ 0x5be0_cd19).pick(&[2048u64, 4096 + 512, 8])));
     }
     // a thread or two waiting with an unusual stack pointer: null (a sandbox helper: skipped by design),
     // all-ones, tiny, unmapped, the last page of the address space
@@ -122,6 +138,12 @@ pub fn gen_scenario(r: &mut Rng, big: bool) -> Scenario {
             } else {
                 args.push(format!("{}:{}", k, v));
             }
+        }
+    }
+    if let Some(w) = wo_stack {
+        if !args.iter().any(|a| a == "-w") {
+            args.push("-w".into());
+            args.push(w);
         }
     }
     // a thread whose stack pointer lies in the lowest mapping of the process, below the executable (with the shared page
